@@ -1367,6 +1367,16 @@ impl GlobalInferenceCtx<'_> {
                         }
                     };
 
+                    // an annotation decides the type of a weak expression (`x : u32 : comptime { 4294967295 }`):
+                    // leave it weak for `expect_match` if only the weak type fits the annotation
+                    if let Some(expected) = self.expected_tys.get(expr)
+                        && matches!(self.bodies[expr], Expr::Paren(_) | Expr::Comptime(_) | Expr::Switch { .. })
+                        && !new_ty.can_fit_into(&expected.expected_ty)
+                        && previous_ty.is_weak_replaceable_by(&expected.expected_ty)
+                    {
+                        continue;
+                    }
+
                     if should_actually_replace(self, expr, previous_ty, new_ty) {
                         self.tys[self.loc].expr_tys.insert(expr, new_ty);
                     }
